@@ -2,6 +2,7 @@
 // option sets, Hasse_complex built from it; Field_Zp and Multi_field) and compares every read interface with the
 // expectation derived by TLC.  usage: pc_cases cases.ndjson out.ndjson [shard nshards]
 #include <sstream>
+#include <fstream>
 #include "common.hpp"
 
 #include <gudhi/Simplex_tree.h>
@@ -14,6 +15,7 @@ using namespace vf;
 namespace pc = Gudhi::persistent_cohomology;
 
 struct Dev {
+  std::string scratch;   // a file of this run's work directory (write_output_diagram)
   std::FILE* out;
   long n = 0, evals = 0;
   void report(const std::string& cfg, long ci, const bj::object& params, const std::string& what, const bj::value& exp, const bj::value& got) {
@@ -108,6 +110,17 @@ void check_field(Complex& cpx, const std::string& cfg, long ci, const bj::object
     bj::value again = canon(bj::value(diagram_of(cpx, pcoh, 0)), true);
     if (ser(again) != ser(got_diag)) dev.report(cfg, ci, params, "get_persistent_pairs after output_diagram", got_diag, again);
     queries("after output_diagram: ");
+    if (!dev.scratch.empty()) {   // the same diagram through write_output_diagram: lines "dim birth death"
+      pcoh.write_output_diagram(dev.scratch);
+      std::ifstream in(dev.scratch);
+      std::map<std::tuple<int, std::int64_t, std::int64_t>, int> written;
+      std::string b, d;
+      int dim;
+      while (in >> dim >> b >> d) written[{dim, fv(std::stod(b)).as_int64(), fv(std::stod(d)).as_int64()}]++;
+      bj::array wa;
+      for (auto& e : written) wa.push_back(bj::object{{"dim", std::get<0>(e.first)}, {"b", std::get<1>(e.first)}, {"d", std::get<2>(e.first)}, {"n", e.second}});
+      if (ser(canon(bj::value(wa), true)) != ser(got_diag)) dev.report(cfg, ci, params, "write_output_diagram", got_diag, wa);
+    }
   }
 }
 
@@ -165,6 +178,7 @@ int main(int argc, char** argv) {
   auto cases = read_ndjson(argv[1]);
   Dev dev;
   dev.out = std::fopen(argv[2], "w");
+  dev.scratch = std::string(argv[2]) + ".diagram";
   int shard = argc >= 5 ? std::atoi(argv[3]) : 0, nshards = argc >= 5 ? std::atoi(argv[4]) : 1;
   crash_ctx().out = dev.out;
   install_crash_handlers();
